@@ -977,6 +977,74 @@ func constPar1(w *World, r *Report) {
 	} else {
 		r.unk("CONST", "par1:status-bit", "-", "savedInVolumeSet not found")
 	}
+	// set hash = MD5 over the full-file hashes of the saved entries: the writer appends the very value it stores
+	// in the entry's Hash field, the reader appends entry.header.Hash
+	if fn := w.Fn("(*par1.Encoder).Write"); fn != nil {
+		var stored ssa.Value
+		for _, b := range fn.Blocks {
+			for _, in := range b.Instrs {
+				if st, ok := in.(*ssa.Store); ok {
+					if fa, ok := st.Addr.(*ssa.FieldAddr); ok && fieldName(fa.X.Type(), fa.Field) == "Hash" && namedTypeName(fa.X.Type()) == "par1.fileEntryHeader" {
+						stored = st.Val
+					}
+				}
+			}
+		}
+		okW := false
+		for _, c := range callInstrs(fn) {
+			if f := c.Common().StaticCallee(); f == nil || f.String() != "crypto/md5.Sum" {
+				continue
+			}
+			// the md5.Sum whose result goes into SetHash: its input is built by appends of slices of `stored`
+			isSet := false
+			if cv := c.Value(); cv != nil {
+				for _, ref := range referrersOf(cv) {
+					if st, ok := ref.(*ssa.Store); ok && strings.HasSuffix(addrPath(st.Addr).Path, ".SetHash") {
+						isSet = true
+					}
+				}
+			}
+			if !isSet || stored == nil {
+				continue
+			}
+			apps, _ := appendWeb(c.Common().Args[0])
+			for _, ap := range apps {
+				if sl, ok := ap.Call.Args[1].(*ssa.Slice); ok {
+					if al, ok := sl.X.(*ssa.Alloc); ok {
+						// the appended bytes are the cell the stored Hash value was loaded from (or holds the same value)
+						if ld, ok := stored.(*ssa.UnOp); ok && ld.X == ssa.Value(al) {
+							okW = true
+						}
+						for _, ref := range referrersOf(al) {
+							if st, ok := ref.(*ssa.Store); ok && st.Addr == ssa.Value(al) && st.Val == stored {
+								okW = true
+							}
+						}
+					}
+				}
+			}
+		}
+		if okW {
+			r.ok("CONST", "par1:set-hash-input:writer", w.pos(fn.Pos()), "set hash input = the full-file MD5 values stored in the entries' Hash fields")
+		} else {
+			r.bad("CONST", "par1:set-hash-input:writer", w.pos(fn.Pos()), "the writer's set hash is not computed over the values it stores in the entries' Hash (full-file MD5) fields")
+		}
+	}
+	if fn := w.Fn("par1.readVolume"); fn != nil {
+		okR := false
+		for _, c := range callInstrs(fn) {
+			if bc := isBuiltinCall(valueOfCall(c), "append"); bc != nil {
+				if strings.HasSuffix(deepPathSliceBase(bc.Call.Args[1]), ".header.Hash") {
+					okR = true
+				}
+			}
+		}
+		if okR {
+			r.ok("CONST", "par1:set-hash-input:reader", w.pos(fn.Pos()), "reader recomputes the set hash over entry.header.Hash of saved entries")
+		} else {
+			r.bad("CONST", "par1:set-hash-input:reader", w.pos(fn.Pos()), "reader does not recompute the set hash over entry.header.Hash")
+		}
+	}
 	// the writer version
 	if fn := w.Fn("(*par1.Encoder).Write"); fn != nil {
 		ok := false
@@ -993,4 +1061,65 @@ func constPar1(w *World, r *Report) {
 			r.bad("CONST", "par1:writer-version", w.pos(fn.Pos()), "writer does not emit version 0x00010000")
 		}
 	}
+}
+
+// constPacketLenBound: a packet's length must be at least the header size - exactly: an empty body is legal.
+func constPacketLenBound(w *World, r *Report) {
+	r.rule("CONST", ruleCONSTText)
+	fn := w.Fn("par2.checkPacketHeader")
+	if fn == nil {
+		r.unk("CONST", "par2:packet-length-bound", "-", "par2.checkPacketHeader not found")
+		return
+	}
+	found := ""
+	for _, b := range fn.Blocks {
+		for _, in := range b.Instrs {
+			bo, ok := in.(*ssa.BinOp)
+			if !ok {
+				continue
+			}
+			isLen := func(v ssa.Value) bool { return lastField(deepPath(v)) == "length" }
+			isHdr := func(v ssa.Value) bool {
+				if callOf(v, "par2.sizeOfPacketHeader") != nil {
+					return true
+				}
+				c, ok := constUint(v)
+				return ok && c == 64
+			}
+			switch {
+			case bo.Op == token.LSS && isLen(bo.X) && isHdr(bo.Y), bo.Op == token.GTR && isHdr(bo.X) && isLen(bo.Y):
+				found = "ok"
+			case (bo.Op == token.LEQ && isLen(bo.X) && isHdr(bo.Y)) || (bo.Op == token.GEQ && isHdr(bo.X) && isLen(bo.Y)):
+				found = "a packet whose length equals the header size (empty body) is rejected; the specification only requires length >= 64 and a multiple of 4"
+			}
+		}
+	}
+	switch found {
+	case "ok":
+		r.ok("CONST", "par2:packet-length-bound", w.pos(fn.Pos()), "packets shorter than the 64-byte header are rejected, a header-only packet is accepted")
+	case "":
+		r.bad("CONST", "par2:packet-length-bound", w.pos(fn.Pos()), "the packet length is not compared with the header size")
+	default:
+		r.bad("CONST", "par2:packet-length-bound", w.pos(fn.Pos()), found)
+	}
+}
+
+func valueOfCall(c ssa.CallInstruction) ssa.Value {
+	if v := c.Value(); v != nil {
+		return v
+	}
+	return nil
+}
+
+// deepPathSliceBase: access path of the array/slice a Slice expression is taken of.
+func deepPathSliceBase(v ssa.Value) string {
+	if sl, ok := v.(*ssa.Slice); ok {
+		return addrPathDeep(sl.X)
+	}
+	return deepPath(v).Path
+}
+
+func addrPathDeep(v ssa.Value) string {
+	p := addrPath(v)
+	return p.Path
 }
